@@ -130,7 +130,7 @@ def run_property(prop, tier, seed, rebaseline=False, only_unit=None):
             continue
         tagmap = {}
         for f in u.fns:
-            tagmap.setdefault(f["name"], set()).update(f["tags"] or [prop])
+            tagmap.setdefault(f["name"], set()).update([t for t in f["tags"] if not t.startswith("?")] or [prop])
         mine = (lambda fn: True) if reg.get("ignore_tags") else (lambda fn: (prop in tagmap.get(fn.split("::")[-1], {prop})))
         for o in u.obligations:
             if not mine(o["fn"]):
@@ -149,16 +149,25 @@ def run_property(prop, tier, seed, rebaseline=False, only_unit=None):
             base = set(baseline.get(u.name, []))
             have = {o["fn"] for o in u.obligations}
             gone = sorted(base - have)
-            if gone and u.status != "undecided":
+            if gone and u.status != "undecided" and not any(not o["ok"] for o in u.obligations):
                 undecided.append((u.name, f"baseline obligations no longer generated: {gone}"))
                 continue
         cls = reg.get("classes")
         xt = reg.get("exclude_text")
         it = reg.get("include_text")
         clst = reg.get("classes_text")
-        fails = [f for f in u.failures if mine(f["fn"]) and (not cls or re.search(cls, f["message"]) or (clst and re.search(clst, f["message"] + " :: " + f["text"] + " :: " + f["src"])))
-                 and not (xt and re.search(xt, f["text"] + " :: " + f["src"]))
-                 and (not it or re.search(it, f["text"] + " :: " + f["src"]))]
+        def counts(f):
+            comb = f["message"] + " :: " + f["text"] + " :: " + f["src"]
+            if clst and re.search(clst, comb):
+                return True
+            if cls and not re.search(cls, f["message"]):
+                return False
+            if xt and re.search(xt, f["text"] + " :: " + f["src"]):
+                return False
+            if it and not re.search(it, f["text"] + " :: " + f["src"]):
+                return False
+            return True
+        fails = [f for f in u.failures if mine(f["fn"]) and counts(f)]
         foreign += len([f for f in u.failures if mine(f["fn"])]) - len(fails)
         located = {f["fn"] for f in u.failures}
         # a function reported failing without a located diagnostic
